@@ -634,6 +634,27 @@ def _format_braces(fmt, args, kwargs):
     return _concat(parts)
 
 
+MEMO_DECORATORS = ("cached_property", "functools.cached_property", "lru_cache", "functools.lru_cache", "cache",
+                   "functools.cache")
+
+
+def memoised(fn):
+    """Name of the memoising decorator of a function definition, else None."""
+    for d in fn.decorator_list:
+        name = ast.unparse(d.func if isinstance(d, ast.Call) else d)
+        if name in MEMO_DECORATORS:
+            return name
+    return None
+
+
+def memo_value(fn, value):
+    """What a call of a memoised function yields: the value computed by the first call with these arguments
+    if there was one (it is not recomputed when the state it was computed from has changed), else `value`."""
+    if memoised(fn) is None:
+        return value
+    return ("gate", ("fn", "cache_hit", (("const", fn.name),)), ("field0", f"#memo:{fn.name}"), value)
+
+
 def subst(t, mapping):
     """Replace whole subterms according to `mapping` (term -> term)."""
     if isinstance(t, tuple):
@@ -1079,6 +1100,7 @@ class Summariser:
         s.ret = ret if ret is not None else ("const", None)
         if not term and ret is not None:
             s.ret = ret
+        s.ret = memo_value(self.fn, s.ret)
         s.fields, s.env = self.exit_fields(term), self.env
         for k in [k for k in s.fields if k.startswith("%")]:
             del s.fields[k]                 # state of local collaborator objects
@@ -2776,7 +2798,7 @@ class Summariser:
                 raise Unsupported(f"generator {m.name} inlined at {self.module.path}:{node.lineno}")
         ev, term, ret = sub.block(m.body)
         self.fields = sub.exit_fields(term)
-        rv = ret if ret is not None else ("const", None)
+        rv = memo_value(m, ret if ret is not None else ("const", None))
         events.append(Inlined(f"{c.name}.{m.name}", ev, node.lineno, c, m, dict(params), rv))
         return rv
 
@@ -2822,7 +2844,7 @@ class Summariser:
         sub.base_facts = len(sub.facts)
         ev, term, ret = sub.block(node.body)
         self.fields = sub.exit_fields(term)
-        rv = ret if ret is not None else ("const", None)
+        rv = memo_value(node, ret if ret is not None else ("const", None))
         events.append(Inlined(q, ev, call_node.lineno, None, node, dict(params), rv))
         return rv
 
